@@ -154,7 +154,7 @@ def axiom_audit(modules, namespaces):
         m = re.match(r"THEOREM (\S+) AXIOMS (.*)$", ln)
         if m:
             name = m.group(1)
-            if not any(name.startswith(ns + ".") for ns in namespaces):
+            if not any(name == ns or name.startswith(ns + ".") for ns in namespaces):
                 continue
             if re.search(r"\.(congr_simp|eq_\d+|eq_def|match_\d+|proof_\d+|_\w+)", name):
                 continue
@@ -350,7 +350,22 @@ def check(pid, tier, replay=None):
             notes.append("model driver does not build: " + r.stdout[-500:])
 
     # 3./4. correspondence
-    corr = RUNNERS[cfg["runner"]](pid, tier, seed, rundir, cfg, bool(broken))   # -> dict
+    runners = cfg["runner"] if isinstance(cfg["runner"], list) else [cfg["runner"]]
+    corr = {}
+    for rk, rname in enumerate(runners):
+        rd = os.path.join(rundir, rname)
+        os.makedirs(rd, exist_ok=True)
+        c1 = RUNNERS[rname](pid, tier, seed, rd, cfg, bool(broken))   # -> dict
+        if not corr:
+            corr = c1
+        else:   # merge a second correspondence (e.g. pure in-process part + black-box CLI part)
+            for k in ("broken", "violations", "notes", "samples", "disagreements"):
+                corr[k] = corr.get(k, []) + c1.get(k, [])
+            for k in ("evaluations", "distinct_nontrivial", "n_disagreements", "n_oracle_failures"):
+                corr[k] = corr.get(k, 0) + c1.get(k, 0)
+            corr["rule"] = corr.get("rule", "") + " || " + c1.get("rule", "")
+            corr["distribution"] = dict(corr.get("distribution", {}), **{f"{rname}/{k}": v for k, v in c1.get("distribution", {}).items()})
+            corr["exhaustive"] = False
     for b in corr.get("broken", []):
         broken.append(b)
     violations += corr.get("violations", [])
@@ -460,6 +475,11 @@ def rust_runner(pid, tier, seed, rundir, cfg, search_more=False):
         os.makedirs(d, exist_ok=True)
         r = run([HARNESS_BIN, pid, tier, str(s), d], env=henv, timeout=cfg.get("timeout", 3000))
         if r.returncode != 0:
+            cur = os.path.join(d, "current.txt")
+            if r.returncode < 0 and os.path.exists(cur):
+                q = open(cur).read()
+                res["violations"].append(("process-killed-on-input", f"the code under test killed the process (signal {-r.returncode}: abort / allocation failure / stack overflow) while handling this input",
+                                          {"seed": s, "tier": tier, "query": short(q), "stderr": short(r.stdout[-600:], 600)}))
             res["broken"].append(f"{pid}/corr/harness-run rc={r.returncode}: " + short(r.stdout[-800:], 800))
             return res
         okm, err = run_model(os.path.join(d, "ops.txt"), os.path.join(d, "model.txt"))
